@@ -445,9 +445,75 @@ def c20(tier, seed):
     return res
 
 
+MM_ALL = ["prologue", "psk", "rs_i", "rs_r", "rs_i_bit", "rs_r_bit"]
+
+
+def c08(tier, seed):
+    if tier == "quick":
+        t = session("c08-mismatch", Mismatches=MM_ALL + ["none"], PskMode="single", InitPads=[False], Variants=["tr"],
+                    TrafficMode="short")
+        r = replay("C08", t, seed, 1, threads=14)
+        t2 = session("c08-overwrite", OverwritePsk=True, PskMode="only", PubLens=[32], InitPads=[False], Variants=["tr"],
+                     TrafficMode="short", PatSet=["NN", "XX", "IK", "N", "X1X1", "K1K", "KX", "NK1"])
+        r2 = replay("C08", t2, seed, 1, threads=14)
+    else:
+        t = session("c08-mismatch", Mismatches=MM_ALL + ["none"], PskMode="all", Variants=["tr", "sl"], TrafficMode="short")
+        r = replay("C08", t, seed, 2, threads=14)
+        t2 = session("c08-overwrite", OverwritePsk=True, PskMode="only", PubLens=[32], InitPads=[False], Variants=["tr"],
+                     TrafficMode="short")
+        r2 = replay("C08", t2, seed, 1, threads=14)
+    return merge("model_checking", [t, t2], [r, r2], RULE_D1 +
+                 "also: set_psk on an already filled slot at any time (wrong key later replaced by the right one, and the "
+                 "reverse), outcome predicted by the model; "
+                 "here: the two endpoints are built with exactly one differing context item - the prologue, one PSK, the "
+                 "pre-shared static key of the peer on either side (another valid key; the right key with its top bit "
+                 "flipped) - for every pattern and psk variant the item applies to; TLC checks MismatchNoChannel and predicts "
+                 "the call that fails; the real code must fail at that call (and nothing may cross afterwards). Name "
+                 "mismatches with different primitives are covered by the protocol-agnostic mismatch driver (D2)",
+                 ASSUME_SYMBOLIC)
+
+
+def c19(tier, seed):
+    kinds = ["ralt", "rtrunc", "rleak"]
+    if tier == "quick":
+        t1 = session("c19-hs", FaultBudget=1, FaultKinds=kinds, Profiles=["mid"], PskMode="single", PubLens=[32],
+                     InitPads=[False], Variants=["tr"], TrafficMode="short",
+                     PatSet=["NN", "XX", "IK", "X", "NK", "KK", "IX", "XK1", "X1X1", "K1X"])
+        cfgs = [("c19-tr", dict(MaxSend=1, Depth=3, BadBudget=2, SetBudget=0, SmallBufs=True)),
+                ("c19-sl", dict(Stateful=False, MaxSend=1, Depth=3, BadBudget=2, SetBudget=0, SmallBufs=True))]
+        bk = "mix-sample"
+    else:
+        t1 = session("c19-hs", FaultBudget=1, FaultKinds=kinds, Profiles=["mid", "zero"], PskMode="single",
+                     InitPads=[False], Variants=["tr"], TrafficMode="short")
+        cfgs = [("c19-tr", dict(MaxSend=2, Depth=4, BadBudget=2, SetBudget=0, SmallBufs=True)),
+                ("c19-sl", dict(Stateful=False, MaxSend=2, Depth=4, BadBudget=2, SetBudget=0, SmallBufs=True))]
+        bk = "mix"
+    # default backend for every cipher (incl. XChaChaPoly, BLAKE2), then ring-backed assignments
+    r1 = replay("C19", t1, seed, 2, threads=14)
+    t1b = session("c19-hs-ring", FaultBudget=1, FaultKinds=kinds, Profiles=["mid"], PubLens=[32], InitPads=[True, False],
+                  Variants=["tr"], TrafficMode="short", PatSet=["NN", "XX", "IK", "X", "KK"])
+    r1b = replay("C19", t1b, seed, 1, threads=14, backends=bk)
+    tl, rl = [t1, t1b], [r1, r1b]
+    for name, c in cfgs:
+        t = transport(name, **c)
+        rl.append(replay("C19", t, seed, 2, threads=14))
+        tl.append(t)
+        t = transport(name + "-ring", **c)
+        rl.append(replay("C19", t, seed, 1, threads=14, backends=bk))
+        tl.append(t)
+    return merge("model_checking", tl, rl, RULE_D1 +
+                 "here: reads that fail (every field altered at its first byte, at its last byte = the tag, or replaced by "
+                 "junk; truncations) on the three read paths (handshake, stateful, stateless), with payload buffers exactly the "
+                 "genuine payload's size, 8 bytes larger, and far larger, for all ciphers on the default backend and for "
+                 "ring-backed endpoints; for each failing read the MODEL lists the plaintexts at stake (LeakSet: payload and "
+                 "decrypted static key of the message's AEAD fields); the caller's buffer (pre-filled with a pattern) must not "
+                 "contain any 8-byte run of any of them", ASSUME_SYMBOLIC + ["payload bytes are high-entropy, so a chance "
+                 "8-byte match has probability about 2^-64 per comparison"])
+
+
 CHECKS = {
-    "C01": c01, "C02": c02, "C03": c03, "C04": c04, "C05": c05, "C06": c06, "C07": c07, "C09": c09, "C11": c11, "C12": c12, "C13": c13,
-    "C14": c14, "C15": c15, "C16": c16, "C17": c17, "C20": c20,
+    "C01": c01, "C02": c02, "C03": c03, "C04": c04, "C05": c05, "C06": c06, "C07": c07, "C08": c08, "C09": c09, "C11": c11, "C12": c12, "C13": c13,
+    "C14": c14, "C15": c15, "C16": c16, "C17": c17, "C19": c19, "C20": c20,
 }
 
 
